@@ -201,6 +201,9 @@ def run(tier, seed):
         over_ex = None
         if whole is not None:
             over_ex = realcode.executor_for(realcode.load_class(realcode.translate(sheets_known, None)))
+            # every formula is asked once BEFORE the overrides arrive (references that share cells, in plan order): nothing read now may outlive the overrides
+            for pos0 in [book.fpos[i0] for i0 in range(len(plan))]:
+                core.outcome(lambda: over_ex.get_cell(Cell(*pos0)).value)
             over_ex.set_cells([Cell(book.titles[s] if rng.random() < 0.5 else s, c, r, v) for (s, c, r), v in over.items()])
         file_ex = None
         if b % 4 == 1 and max(book.w) <= 1000 and not any(ch in t for t in book.titles for ch in '\\/*?:[]'):
